@@ -185,6 +185,21 @@ for _pid, _extra in ROUND15.items():
     _l, _t, _text, _n, _r = CHECKS[_pid]
     CHECKS[_pid] = (_l, _t, _text + _extra, _n, _r)
 
+ROUND16 = {
+    "C02": " Round 16: everything in the cluster forgotten, then the call made again.",
+    "C06": " Round 16: a version with slashes in the directly driven cache.",
+    "C07": " Round 16: a recorded failure with a non-ASCII message.",
+    "C09": " Round 16: a cluster described by a configuration dictionary, first used by the threads.",
+    "C10": " Round 16: a callee released under a second version between a memoized sub-call and its caller.",
+    "C11": " Round 16: documents read once before their function was defined, then again.",
+    "C14": " Round 16: a hidden call back to a function running further up the stack.",
+    "C17": " Round 16: small containers that JSON would not give back as they are.",
+    "C18": " Round 16: explicit but empty clusters= / repos= arguments.",
+}
+for _pid, _extra in ROUND16.items():
+    _l, _t, _text, _n, _r = CHECKS[_pid]
+    CHECKS[_pid] = (_l, _t, _text + _extra, _n, _r)
+
 NOT_BUILT = "check not built yet in this round (design in DESIGN.md §4); will be claimed once its monitor exists"
 
 
